@@ -7,7 +7,7 @@ from ..util import stream
 
 PROP = "C13"
 LEVEL = "exploration"
-N = {"quick": 12000, "thorough": 300000}
+N = {"quick": 40000, "thorough": 800000}
 RULE = ("seeded instance (flexible, zero durations) x filter x dispatch history with rejected requests and resets, "
         "both reward observers subscribed (either creation order, sometimes created mid-history after a reset); "
         "after every op: one reward per accepted dispatch, each <= 0, running sums = -makespan / -idle time by the "
